@@ -183,7 +183,7 @@ func (e *engine) sweepTargets() []*ssa.Function {
 		if f.Parent() != nil && runsInlineInParent(e, f) {
 			continue // checked where it runs: inside its parent, with the parent's lock state
 		}
-		if e.touchesGuarded(f) {
+		if e.touchesGuarded(f) || spawnsGoroutineClosure(f) {
 			keys = append(keys, k)
 		}
 	}
